@@ -1,11 +1,11 @@
 package prop
 
 import (
-	"regexp"
 	"fmt"
 	"net/http"
 	"os"
 	"path/filepath"
+	"regexp"
 	"strings"
 	"time"
 
@@ -179,6 +179,7 @@ func (c *Ctx) LivePan(files map[string]string, node *panosdev.Node, o PanOpts) *
 	r.Res.Stderr = strings.ReplaceAll(r.Res.Stderr, w.Dir, "BASEDIR")
 	c.Res.SimSeconds += r.EndAt.Seconds()
 	c.EventHash(log.Hash())
+	dumpLog(log.Hash(), log.Copy())
 	return r
 }
 
@@ -188,8 +189,16 @@ func panConverge(prop string) RunFunc {
 		cs := GenPanCase(tp)
 		node := cs.Node()
 		node.JobPend = tp.Next(4)
-		before := cs.Node() // pristine copy for comparisons
 		o := PanOpts{Front: []string{"do-approve", "drc"}[tp.Next(2)], Timeout: 60, Backup: tp.Chance(1, 5)}
+		return panJudgeConverge(c, cs, node, o, prop, "")
+	}
+}
+
+// panJudgeConverge runs one approve session onto node and applies the oracles
+// of C03 (or C07 / C08); pre prefixes the oracle clause in the key.
+func panJudgeConverge(c *Ctx, cs *PanCase, node *panosdev.Node, o PanOpts, prop, pre string) *Failure {
+	{
+		before := &panosdev.Node{Cand: node.Cand.Clone()} // pristine copy for comparisons
 		r := c.LivePan(cs.Files, node, o)
 		fail := func(key, msg string) *Failure {
 			// A service-group that exists on the device gets its new member
@@ -206,7 +215,7 @@ func panConverge(prop string) RunFunc {
 				}
 			}
 			in["script"] = reqs
-			return &Failure{Key: "PAN-OS|" + key, Msg: msg, Input: in, Log: tail(r.Log, 60)}
+			return &Failure{Key: "PAN-OS|" + pre + key, Msg: msg, Input: in, Log: tail(r.Log, 60)}
 		}
 		if r.Trouble != "" {
 			return fail("no-exit", r.Trouble)
